@@ -14,7 +14,10 @@ import H3.Gen.Settings
 
     A panic (`unwrap` on `VarInt::from_u64`, writing past the end of the `WriteBuf` array) is
     the explicit outcome `none`.  The model describes the tree *with* the repair of D-13
-    (`insert` refuses identifiers and values that do not fit a varint). -/
+    (`insert` refuses identifiers and values that do not fit a varint).  `Settings::decode` is
+    modelled in the two shapes the translator knows (`H3.Gen.Settings.booleanIds`): `[]` = every
+    understood identifier is stored with the value it carries (before the repair of D-13b),
+    `[8, 51]` = `is_boolean() && value > 1` is `InvalidSettingValue`. -/
 namespace H3.Settings
 open H3.Varint H3.Gen.Consts H3.Gen.Settings
 
@@ -42,6 +45,13 @@ def isSupported (id : Nat) : Bool := supportedIds.contains id
 
 /-- `SettingId::is_forbidden`: identifiers HTTP/2 defined and HTTP/3 reserves. -/
 def isForbidden (id : Nat) : Bool := forbiddenIds.contains id
+
+/-- `SettingId::is_boolean`: the understood identifiers whose only values are 0 and 1 (the list is read
+    from the source by the translator; `[]` when the source has no such test, D-13b). -/
+def isBoolean (id : Nat) : Bool := booleanIds.contains id
+
+/-- the test in front of the insert in `Settings::decode`: `identifier.is_boolean() && value > 1` -/
+def badValue (id v : Nat) : Bool := isBoolean id && decide (1 < v)
 
 /-- `SettingId::grease()` for the random draw `n` (`fastrand::u64(0..GREASE_N_BOUND)`). -/
 def greaseId (n : Nat) : Nat := n * GREASE_MUL + GREASE_ADD
@@ -120,6 +130,7 @@ def decodeLoop : Nat → Settings → Bytes → Except SettingsError Settings
     | some (id, v, rest) =>
       if isForbidden id then .error (.invalidSettingId id)
       else if isSupported id then
+        if badValue id v then .error (.invalidSettingValue id v) else
         match insert s id v with
         | .error e => .error e
         | .ok s' => decodeLoop f s' rest
